@@ -901,15 +901,16 @@ func H_C13_entropy(lg Language, L int, W int) {
 		verifAssert(buf[i] == keep[i], "caller-memory-unmodified-"+itoa(i))
 	}
 	keep = keep[:L]
-	// a second call with other arguments does not disturb the first result
+	// the caller reuses its buffer: overwrite it in place and call again (no call in between)
 	ent2 := verifBytes("ent2", L)
-	got2, _ := NewMnemonicByEntropy(ent2, lg)
-	verifAssert(got == specSentence(lg, keep), "earlier-result-unaltered")
-	verifAssert(got2 == specSentence(lg, ent2), "second-result")
-	// the caller reuses its buffer: overwrite it in place and call again
 	copy(ent, ent2)
 	got3, _ := NewMnemonicByEntropy(ent, lg)
 	verifAssert(got3 == specSentence(lg, ent2), "result-after-caller-reuses-buffer")
+	// a further call with other arguments in a fresh slice
+	ent4 := verifBytes("ent4", L)
+	got4, _ := NewMnemonicByEntropy(ent4, lg)
+	verifAssert(got == specSentence(lg, keep), "earlier-result-unaltered")
+	verifAssert(got4 == specSentence(lg, ent4), "later-result")
 	verifReach("end")
 }
 
@@ -1005,7 +1006,11 @@ func verifC12Op(op int, lg Language, sfx string, sym int) {
 		valid := specValid(idx)
 		if op == 0 {
 			err := CheckMnemonic(m, lg)
-			verifAssert((err == nil) == valid, "concurrent-check-equals-reference-"+sfx)
+			want := 2 // all words canonical: the only possible defect is the checksum
+			if valid {
+				want = 0
+			}
+			verifAssert(verifVerdict(err) == want, "concurrent-check-equals-reference-"+sfx)
 		} else {
 			verifAssert(IsMnemonicValid(m, lg) == valid, "concurrent-isvalid-equals-reference-"+sfx)
 		}
@@ -1058,6 +1063,64 @@ func H_C12_pair(opA int, lgA Language, opB int, lgB Language, sym int) {
 	verifMark("B")
 	verifC12Op(opB, lgB, "b", sym)
 	verifMark("end")
+	verifReach("end")
+}
+
+// verifPar runs f and g concurrently. Under the engine they are cooperative threads whose
+// interleavings (at synchronisation operations, with at most `preempt` preemptions) are explored
+// exhaustively; natively they are two goroutines released together.
+func verifPar(f, g func(), preempt int) {
+	var wg sync.WaitGroup
+	start := make(chan struct{})
+	wg.Add(2)
+	go func() { defer wg.Done(); <-start; f() }()
+	go func() { defer wg.Done(); <-start; g() }()
+	close(start)
+	wg.Wait()
+}
+
+// verifStressRounds: 0 under the engine; natively the number of extra concurrent rounds used to
+// reproduce a schedule-dependent failure the engine found.
+func verifStressRounds() int {
+	var v int64
+	if verifGet("stress", &v) {
+		return int(v)
+	}
+	return 0
+}
+
+func H_C12_sched(opA int, lgA Language, opB int, lgB Language, sym int) {
+	verifGoldenList(int(lgA))
+	verifGoldenList(int(lgB))
+	verifPar(func() { verifC12Op(opA, lgA, "a", sym) }, func() { verifC12Op(opB, lgB, "b", sym) }, 2)
+	// later calls, after both goroutines have finished, must still see consistent state
+	verifC12Op(opA, lgA, "c", sym)
+	verifC12Op(opB, lgB, "d", sym)
+	if n := verifStressRounds(); n > 0 {
+		// native reproduction of a schedule-dependent failure: both calls in tight loops, several
+		// goroutines each, then the sequential calls again
+		for rep := 0; rep < 20 && len(verifRes.Failures) == 0; rep++ {
+			var wg sync.WaitGroup
+			for g := 0; g < 4; g++ {
+				wg.Add(2)
+				go func() {
+					defer wg.Done()
+					for r := 0; r < n; r++ {
+						verifC12Op(opA, lgA, "a", sym)
+					}
+				}()
+				go func() {
+					defer wg.Done()
+					for r := 0; r < n; r++ {
+						verifC12Op(opB, lgB, "b", sym)
+					}
+				}()
+			}
+			wg.Wait()
+			verifC12Op(opA, lgA, "c", sym)
+			verifC12Op(opB, lgB, "d", sym)
+		}
+	}
 	verifReach("end")
 }
 
@@ -1208,6 +1271,7 @@ var verifHarnesses = map[string]func(a []int64){
 	"H_C13_seq":         func(a []int64) { H_C13_seq(Language(a[0]), int(a[1]), int(a[2])) },
 	"H_C13_seq_gen":     func(a []int64) { H_C13_seq_gen(Language(a[0]), int(a[1]), int(a[2])) },
 	"H_C12_pair":        func(a []int64) { H_C12_pair(int(a[0]), Language(a[1]), int(a[2]), Language(a[3]), int(a[4])) },
+	"H_C12_sched":       func(a []int64) { H_C12_sched(int(a[0]), Language(a[1]), int(a[2]), Language(a[3]), int(a[4])) },
 	"H_C12_race":        func(a []int64) { H_C12_race(int(a[0]), Language(a[1]), int(a[2]), Language(a[3]), int(a[4])) },
 }
 
